@@ -72,9 +72,9 @@ def work(case):
         if lists is None:
             break
         comp, halt, upd = lists
-        comp = [r for r in comp if (r.phenomenon_name, r.pattern_name) not in single]
-        halt = [r for r in halt if (r.phenomenon_name, r.pattern_name) not in single]
         for r in comp:
+            if (r.phenomenon_name, r.pattern_name) in single:
+                continue      # identifiers of singleton runs are substituted: counted per pattern by C13, not per id
             ncomp[r.run_id] = ncomp.get(r.run_id, 0) + 1
             if ncomp[r.run_id] > 1 and fail is None:
                 fail = dict(signature="second-completed-notification", step=k,
@@ -86,13 +86,22 @@ def work(case):
             pats = {(PL.phname(ph), PL.patname(p["name"])) for ph, ps in cfg["phen"] for p in ps}
             for kk in ("comp", "halt"):
                 for r in op[1][kk]:
-                    if (PL.phname(r["ph"]), PL.patname(r["pat"])) in pats - single:
+                    if (PL.phname(r["ph"]), PL.patname(r["pat"])) in pats:
                         seen.add(str(r["id"]))
         active = {r.run_id for r in dec.all_runs()}
         back = active & seen
         if back and fail is None:
-            fail = dict(signature="finished-run-active-again", step=k,
-                        what="run %s is active again after this instance saw it finish" % sorted(back)[0], detail=None)
+            x = sorted(back)[0]
+            sig = "finished-run-active-again"
+            if op[0] == "remote" and any(str(r["id"]) == x for r in op[1]["upd"]):
+                # D17 (known): the same message finished the local singleton run x under the peer's id
+                rx = [r for r in op[1]["upd"] if str(r["id"]) == x][0]
+                if (PL.phname(rx["ph"]), PL.patname(rx["pat"])) in single and any(
+                        r["ph"] == rx["ph"] and r["pat"] == rx["pat"] and str(r["id"]) != x
+                        for kk in ("comp", "halt") for r in op[1][kk]):
+                    sig = "singleton-run-finished-under-peer-id-recreated-by-same-message"
+            fail = dict(signature=sig, step=k,
+                        what="run %s is active again after this instance saw it finish" % x, detail=None)
     return out, nontrivial, fail
 
 
